@@ -165,7 +165,12 @@ func genCrash(c *Ctx) error {
 				}
 			}
 			p.journalTx(first, 0, 0)
-			p.journalTx(p.randomShape(3), 0, 0)
+			if strings.Contains(sh.name, "shrink-spill") {
+				// keep the 8 pages: the shape cuts the last two
+				p.journalTx(txShape{newN: len(p.img), pages: map[int]bool{1: true, 2: true}, commit: true}, 0, 0)
+			} else {
+				p.journalTx(p.randomShape(3), 0, 0)
+			}
 			wal := strings.HasPrefix(sh.name, "wal") || sh.name == "litefs-checkpoint" || (sh.name == "drop" && r.Bool())
 			if wal {
 				p.wal = true
